@@ -225,6 +225,35 @@ func cmdCheck() int {
 		if *flagFn != "" && *flagFn != k {
 			continue
 		}
+		if fs.Implementations {
+			// a contract on an interface method: every implementation in the
+			// packages under verification must satisfy it
+			impls := e.implementations(k)
+			if len(impls) == 0 {
+				missing = append(missing, k)
+				continue
+			}
+			for _, im := range impls {
+				vc := newFuncVC(e, im.fn)
+				vc.outDir = outDir
+				vc.spec = fs
+				vc.ifaceRecv = im.iface
+				vc.ifaceImpl = im.recv
+				vc.key = k + "@" + typeShort(im.recv)
+				vc.generate()
+				vc.finish()
+				vcs = append(vcs, vc)
+				for _, er := range vc.errs {
+					genErrs = append(genErrs, vc.key+": "+er)
+				}
+				rep := &fnReport{Name: vc.key, Pos: fnPosition(e, im.fn), Requires: len(fs.Requires), Ensures: len(fs.Ensures), SSAInstrs: vc.ssaInstrs,
+					Inlined: sortedKeys(vc.inlined), Unknown: sortedKeys(vc.unknownCalls), Unsupported: sortedKeys(vc.unsupported)}
+				reports = append(reports, rep)
+				repByFn[vc.key] = rep
+				obls = append(obls, vc.obls...)
+			}
+			continue
+		}
 		fn := e.fnByName[k]
 		if fn == nil {
 			missing = append(missing, k)
@@ -286,10 +315,15 @@ func cmdCheck() int {
 		secs = 120
 		all = true
 	}
+	for _, o := range obls {
+		if known.match(prop, o.Name) != nil {
+			o.MaxSecs = 4 // a recorded finding is expected not to discharge: do not wait for it
+		}
+	}
 	results := solveAll(obls, outDir, secs, *flagWorkers, all)
 
 	// classify: an obligation with split cases is discharged iff every case is
-	nObl, nDis := 0, 0
+	nObl, nDis, nKnownObl := 0, 0, 0
 	var failed []*Result
 	var oreps []oblReport
 	var solverMs int64
@@ -349,6 +383,12 @@ func cmdCheck() int {
 			if g.bad != nil && g.bad.Status == "vacuous" {
 				vacuous = append(vacuous, g.bad)
 			}
+			continue
+		}
+		if g.bad != nil && known.match(prop, name) != nil {
+			// a recorded finding: reported as KNOWN-FINDING, not counted as a claimed obligation
+			nKnownObl++
+			failed = append(failed, g.bad)
 			continue
 		}
 		nObl++
@@ -443,7 +483,7 @@ func cmdCheck() int {
 		fmt.Println(l)
 	}
 	wall := time.Since(start).Seconds()
-	fmt.Printf("property %s tier %s: %d obligations, %d discharged, %d violations, %d known findings, %.1fs\n", prop, tier, nObl, nDis, violations, len(knownLines), wall)
+	fmt.Printf("property %s tier %s: %d obligations, %d discharged, %d violations, %d known findings (%d obligations set aside), %.1fs\n", prop, tier, nObl, nDis, violations, len(knownLines), nKnownObl, wall)
 
 	if !*flagNoEvid && *flagFn == "" && *flagOnly == "" {
 		writeEvidence(e, prop, tier, seed, reports, oreps, nObl, nDis, violations, knownLines, backends, solverMs, wall, vcs, bounded)
